@@ -21,9 +21,13 @@ def main():
     for key in keys:
         pat, ns, custom, flags = key[:4]
         kw = {} if custom is None else {'custom': custom}
-        with contextlib.redirect_stdout(io.StringIO()), warnings.catch_warnings():
-            warnings.simplefilter('ignore')
-            c = sv.compile(pat, ns, flags, **kw)
+        try:
+            with contextlib.redirect_stdout(io.StringIO()), warnings.catch_warnings():
+                warnings.simplefilter('ignore')
+                c = sv.compile(pat, ns, flags, **kw)
+        except (KeyError, sv.SelectorSyntaxError):
+            out.append(None)     # a key compile() rejects with a documented error: nothing to pickle
+            continue
         out.append(base64.b64encode(pickle.dumps(c)).decode('ascii'))
     json.dump(out, sys.stdout)
 
